@@ -83,6 +83,8 @@ pub struct DriverSpec {
     pub fail_at: Option<usize>,
     /// deviate from the layout at this call (counted over all calls the driver sees)
     pub deviate_at: Option<(usize, Deviation)>,
+    /// a later call at which the same deviation happens again
+    pub deviate_again: Option<usize>,
     /// the device answers the same on every call
     pub constant: bool,
     /// every answer ends with an entry for a signal the test does not know (a debug pin, say)
@@ -99,6 +101,7 @@ impl DriverSpec {
             override_write: false,
             fail_at: None,
             deviate_at: None,
+            deviate_again: None,
             constant: false,
             foreign: false,
         }
@@ -135,14 +138,15 @@ impl DriverSpec {
 
     pub fn describe(&self, sigs: &[Sig]) -> String {
         format!(
-            "seed={:#x} palette={:?} zx={}/256 layout=[{}] override_write={} fail_at={:?} deviate_at={:?}",
+            "seed={:#x} palette={:?} zx={}/256 layout=[{}] override_write={} fail_at={:?} deviate_at={:?} deviate_again={:?}",
             self.seed,
             self.palette,
             self.zx,
             self.layout.iter().map(|i| sigs[*i].name.as_str()).collect::<Vec<_>>().join(","),
             self.override_write,
             self.fail_at,
-            self.deviate_at
+            self.deviate_at,
+            self.deviate_again
         )
     }
 }
@@ -241,6 +245,7 @@ pub fn gen_spec(ch: &mut Ch, sigs: &[Sig], cfg: &SpecCfg) -> DriverSpec {
         override_write,
         fail_at: None,
         deviate_at: None,
+        deviate_again: None,
         constant: false,
         foreign: false,
     }
